@@ -53,12 +53,13 @@ func execTable(c tableCase) *evid.Failure {
 	}
 	resp := pool.NewMessage(context.Background())
 	w := responsewriter.New(resp, relClient{}, opts...)
-	err = w.SetResponse(codes.Code(c.Code), message.TextPlain, bytes.NewReader([]byte("x")))
+	err = w.SetResponse(codes.Code(c.Code), message.TextPlain, bytes.NewReader([]byte("x")),
+		message.Option{ID: message.ETag, Value: []byte{0xE2, 0x01}}, message.Option{ID: message.MaxAge, Value: []byte{60}})
 	if (err != nil) != want {
 		return evid.Failf("table/set-response", c, "ResponseWriter.SetResponse(code=%d.%02d) with No-Response=%d refused=%v, RFC 7967 says %v", c.Code>>5, c.Code&31, c.Value, err != nil, want)
 	}
-	if err != nil && (w.Message().Code() != codes.Empty || w.Message().Body() != nil) {
-		return evid.Failf("table/refused-but-set", c, "SetResponse was refused but the response message was modified (code %v)", w.Message().Code())
+	if err != nil && (w.Message().Code() != codes.Empty || w.Message().Body() != nil || len(w.Message().Options()) != 0 || w.Message().IsModified()) {
+		return evid.Failf("table/refused-but-set", c, "SetResponse was refused but the response message was touched (code %v, %d options, modified=%v): it would be put on the wire", w.Message().Code(), len(w.Message().Options()), w.Message().IsModified())
 	}
 	if err == nil && w.Message().Code() != codes.Code(c.Code) {
 		return evid.Failf("table/accepted-not-set", c, "SetResponse was accepted but the response code is %v", w.Message().Code())
